@@ -160,10 +160,10 @@ PROPS = {
                       LIQ_DRIVERS + RISK_DRIVERS + ADMIN_DRIVERS + STAKED_DRIVERS, models=RISK_MODELS + CONFIG_MODELS),
     "C14": risk_prop2(["deposit", "withdraw", "borrow", "repay", "liquidate", "bankruptcy", "propagate_fee"], LIQ_DRIVERS + RISK_DRIVERS, models=GATE_MODELS),
     "C01": ledger_prop(),
-    "C02": dict(ledger_prop(), drivers=LEDGER_DRIVERS + LIQ_DRIVERS),
+    "C02": dict(ledger_prop(extra_ops=["purge", "transfer_account"]), drivers=LEDGER_DRIVERS + LIQ_DRIVERS + ADMIN_DRIVERS),
     "C03": ledger_prop(),
     "C06": dict(ledger_prop(), drivers=LEDGER_DRIVERS + [{"name": "caps", "args": {"quick": [200], "thorough": [4000]}}]),
-    "C16": dict(ledger_prop(), drivers=LEDGER_DRIVERS + [{"name": "struct", "args": {"quick": [60], "thorough": [2000]}}] + LIQ_DRIVERS + STAKED_DRIVERS),
+    "C16": dict(ledger_prop(), drivers=LEDGER_DRIVERS + [{"name": "struct", "args": {"quick": [60], "thorough": [2000]}}] + LIQ_DRIVERS + STAKED_DRIVERS + ADMIN_DRIVERS),
     "C17": dict(ledger_prop(), drivers=LEDGER_DRIVERS + [{"name": "caps", "args": {"quick": [300], "thorough": [8000]}}]),
     "C15": {
         "models": [
